@@ -17,11 +17,20 @@ prop(
                 "current counter); asserts no panic (dev profile overflow checks), handle distinctness, the invariant after the "
                 "step, and that a failing creation is OutOfResources and stores nothing.",
     bounds="one live earlier entity per kind; counters symbolic over their full range",
-    outside="create_data_writer / create_data_reader (writer_counter / reader_counter): the SAT encoding of one such call on a "
+    outside="the delete operations (that they never lower a counter onto a live entity's key: one real "
+            "delete_user_defined_publisher with a non-empty writer list did not finish in 900 s, so a change that makes a "
+            "REJECTED delete hand the key back — seeded change C35-1 — is not detected); create_data_writer / create_data_reader (writer_counter / reader_counter): the SAT encoding of one such call on a "
             "participant exceeded 26 GB / 450 s in propositional reduction even with the announcement, TypeInformation and "
             "TopicKind stubs (harnesses kept parked in c35_handles.rs, not run) — these two counters use the same checked_add "
             "pattern but are NOT decided here; the enabled-entity announcement path (DynamicData); RTPS GUIDs (same 16 bytes as "
             "the handle by construction); stubs: TypeInformation::from(DynamicType) and alloc::fmt::format in the topic harnesses",
     timeout={"quick": 900, "thorough": 1800},
     cbmc_args=["--unwindset", "memcmp.0:17"],
+    # global #[kani::unwind(3)] (entity lists hold <= 2 entries); the few longer loops get their own bound, looked up
+    # by function-name pattern in the goto binaries of the run (vlib/kani.py resolve_unwind_patterns)
+    unwind_patterns=[
+        (r"StatusMask as std::iter::FromIterator", 14),   # DcpsStatusCondition::default(): 13 status kinds
+        (r"overflowing_pow", 8),
+        (r"slice_contains|SliceContains", 8),               # BUILT_IN_TOPIC_NAME_LIST (6 names)
+    ],
 )
